@@ -56,6 +56,8 @@ func c12Events(full bool) []string {
 		evs = append(evs, "upd "+id+" - 7", "upd "+id+" "+other+" 9", "upd "+id+" a,b,x 3", "upd "+id+" "+other+","+other)
 	}
 	evs = append(evs, "upd c a")
+	// a registered peer listed under another spelling of its id is, for the store, an unknown id
+	evs = append(evs, "upd a B 4", "upd b A,a 5")
 	evs = append(evs, "nonce a n", "nonce a n+1", "tick 30s", "tick 121s")
 	if full {
 		evs = append(evs, "nonce b stale", "tick 60s")
@@ -148,6 +150,7 @@ func init() {
 				for _, scen := range []string{"report-vs-peer-checkin", "report-vs-peer-reconnect"} {
 					us = append(us, c11Race(d, scen, rb))
 				}
+				us = append(us, c05StoreRaceIdentities(d, rb))
 			}
 			return us
 		},
